@@ -146,6 +146,17 @@ def check(chk):
     calls = [call_attr(c) for c in f.calls()]
     ok = "ball_arrived" in calls and any(call_attr(c) == "_set_ball_count" and src(c.args[0]).replace(" ", "") == "self._ball_count+1" for c in f.calls())
     chk.ob("DELTA-1", "a ball entering during an eject is announced and counted (+1)", ok, f.where(), construct=f.ident, text="entrance +1")
+    # ... on every path: the arrival is announced (the playfield gives the ball up) and counted together; an arrival that is announced but not
+    # counted is found again by the next recount and taken from the playfield a second time
+    chk.analysed(f)
+    ecf = f.cfg()
+    ann = [n.id for n, c in ecf.calls_named("ball_arrived")]
+    cnt = [n.id for n, c in ecf.calls_named("_set_ball_count") if c.args and src(c.args[0]).replace(" ", "") == "self._ball_count+1"]
+    for a_ in ann:
+        w_ = ecf.must_pass(a_, cnt) if cnt else [a_]
+        chk.ob("DELTA-1", "every ball announced as arrived during an eject is counted on every path (no further condition)", w_ is None, f.where(), construct=f.ident,
+               detail="during an eject the handled count still includes the ball that is leaving: `is_full` says nothing about room",
+               text="entrance during eject counted on every path", path=ecf.fmt_path(w_, f) if w_ and len(w_) > 1 else None, nontrivial=True)
     for name in ("_run", "wait_for_ball"):
         f = bch.methods[name]
         chk.analysed(f)
@@ -640,6 +651,7 @@ def _entrance_windows_per_switch(chk, repo):
 def battery():
     from sa.battery import M
     return [
+        M("entrance during an eject not counted when the device looks full", "mpf/devices/ball_device/ball_count_handler.py", "        await self.ball_device.incoming_balls_handler.ball_arrived()\n        self._set_ball_count(self._ball_count + 1)", "        await self.ball_device.incoming_balls_handler.ball_arrived()\n        if not self.is_full:\n            self._set_ball_count(self._ball_count + 1)", "DELTA-1"),
         M("release state kept when the hold device ran empty", "mpf/devices/ball_device/hold_coil_ejector.py", "        self.hold_release_in_progress = False\n        self.ball_device.log.debug(\"No more balls. Hold coil will stay disabled.\")\n\n        # reenable hold coil if there are balls left\n        if self.ball_device.balls > 0:\n            self._enable_hold_coil()", "        if self.ball_device.balls > 0:\n            self.hold_release_in_progress = False\n            self._enable_hold_coil()", "HOLD-4"),
         M("count-stable timer cancelled under another name", "mpf/devices/ball_device/entrance_switch_counter.py", "            self._settle_delay.remove(\"count_stable\")", "            self._settle_delay.remove(\"settle\")", "NAME-0"),
         M("one loss report for any number of extra balls", OB, "                    for _ in range(0, old_balls - new_balls):\n                        # Post that the ball is lost\n                        await self.ball_device.lost_idle_ball()\n                        # Cancel the eject queue for the lost ball\n", "                    await self.ball_device.lost_idle_ball()\n                    for _ in range(0, old_balls - new_balls):\n", "DELTA-1"),
